@@ -208,7 +208,7 @@ func c15AllCombos(name string) []gixSeries {
 // c15Build creates an index whose series arrive in several batches with compactions between them,
 // so that the final file set has log files and index files of more than one level.
 func c15Build(t *testing.T, r *vkit.Run, rg *vkit.Rand, setNo int) *c15Set {
-	dir, err := os.MkdirTemp("", "c15")
+	dir, err := gixTempDir("c15")
 	if err != nil {
 		t.Fatal(err)
 	}
